@@ -92,8 +92,12 @@ MUTANTS = [
          new="			return [group_map[k] for k, rows in group_items for _ in rows]", rules=["b.expansion"]),
     dict(id="row-keys-outside-loop", module=_T, old="			key = tuple(over_data[k][i] for k in range(pk_len))\n			row_keys[i] = key\n",
          new="			key = tuple(over_data[k][i] for k in range(pk_len))\n", rules=["a.partition"]),
-    dict(id="window-key-column-sorted", module=_T, old="				Vector(list(col), name=uniquify(col._name or \"key\"))",
-         new="				Vector(sorted(col), name=uniquify(col._name or \"key\"))", rules=["c.key-columns"]),
+    dict(id="window-key-column-sorted", module=_T, old="				Vector(list(col), dtype=col._dtype, name=",
+         new="				Vector(sorted(col), dtype=col._dtype, name=", rules=["c.key-columns"]),
+    dict(id="window-key-column-reinferred", module=_T, old="				Vector(list(col), dtype=col._dtype, name=", new="				Vector(list(col), name=",
+         rules=["c.key-columns"], desc="reverts the fix: a masked <int?> key comes out <int>, an all-None typed key <object?>"),
+    dict(id="window-key-name-falsy", module=_T, count=2, nth=1, old="col._name if col._name is not None else \"key\"", new="col._name or \"key\"",
+         rules=["c.key-columns"], desc="a key column named '' is renamed to 'key'"),
     dict(id="window-name-bypasses-uniquify", module=_T, old="					Vector(expand_to_rows(gm), name=uniquify(sanitize(col, \"max\")))",
          new="					Vector(expand_to_rows(gm), name=sanitize(col, \"max\"))", rules=["b.outputs", "d.same-aggregators"]),
     dict(id="window-stdev-one-pass", module=_T,
